@@ -95,6 +95,15 @@ class Check:
             for f in ("uc7_config.yaml", "uc7_config_tap003.yaml", "data_manipulation.yaml"):
                 specs.append({"name": f"{f}~settings{seed * 10 + j}", "src": ["variant", {"base": ["shipped", f], "settings_seed": seed * 10 + j, "p_nodes": 1.0}],
                               "seed": seed * 10 + 5 + j, "steps": (32 if q else 96) if f.startswith("uc7") else steps, "episodes": 2, "max_len": None})
+        # the sharing defender declared BEFORE the (>= 2) green users it shares rewards with: the order in which the users act / are
+        # evaluated must not come from a hash-ordered container
+        for j, f in enumerate(["uc7_config.yaml", "data_manipulation.yaml"] if q else ["uc7_config.yaml", "data_manipulation.yaml", "uc7_config_tap003.yaml"] * 2):
+            specs.append({"name": f"{f}~defender-first-{j}", "src": ["variant", {"base": ["shipped", f], "settings_seed": seed * 10 + 7 + j, "defender_first": True}],
+                          "seed": seed * 10 + 8 + j, "steps": (32 if q else 96) if f.startswith("uc7") else steps, "episodes": 2, "max_len": None})
+        for g in range(4 if q else 16):
+            sd = seed * 1000 + 200 + g
+            specs.append({"name": f"gen-defender-first-{sd}", "src": ["gen", {"seed": sd, "knobs": {"p_random_agent": 0.5, "defender_position": "first", "min_clients": 3}}],
+                          "seed": sd, "steps": steps, "episodes": 2})
         for g in range(8 if q else 32):
             sd = seed * 1000 + g
             specs.append({"name": f"gen-{sd}", "src": ["gen", {"seed": sd, "knobs": {"p_random_agent": 0.5}}], "seed": sd, "steps": steps, "episodes": 2})
@@ -114,7 +123,7 @@ class Check:
                 ("clock-jumps", {"arm": {"clock": "jumps"}}), ("entropy-stream", {"arm": {"entropy": 4242}}), ("logging-on", {"arm": {"logging": True}})]
         if tier_thorough:
             arms += [("hashseed", {"hashseed": h}) for h in range(3, 9)]
-        elif spec["src"][0] == "variant":
+        elif spec["src"][0] == "variant" or "defender-first" in spec["name"]:
             arms += [("hashseed", {"hashseed": h}) for h in (3, 4)]
         sens = base["diag"]["sensitive"]
         sensitive = sens["nmap_scans"] > 0 or sens["prob_agent_steps"] >= 50 or len(sens["tap_stages"]) > 1
